@@ -324,6 +324,86 @@ def s3_exceptions(fx):
     }
 
 
+# Vec / String / slice methods that change which bytes a buffer holds or their order (truncate / pop / clear / shrink only
+# drop a tail, which the encoders mirror by writing a terminator; they are not listed)
+EDITS = ("remove", "insert", "drain", "retain", "retain_mut", "reverse", "swap_remove", "rotate_left", "rotate_right", "sort", "sort_unstable",
+         "sort_by", "sort_by_key", "dedup", "dedup_by", "dedup_by_key", "push", "push_str", "extend", "extend_from_slice", "splice", "split_off", "fill",
+         "copy_within", "swap", "append", "make_ascii_uppercase", "make_ascii_lowercase", "insert_str", "replace_range")
+
+
+def s6(fx, chk):
+    """the encoders write a field's bytes as they are; a decoder that edits the buffer it filled from the stream (drops, inserts,
+    reorders or rewrites bytes) returns a value that does not re-encode to what was read, and does not decode what was encoded
+    whenever the edit applies.  Per decoder function: every local that read_exact / read_to_end / read_to_string fills through a
+    `&mut` borrow must not be the receiver of a content-changing method afterwards."""
+    from mir import body_of, callee_path, op_place, strip_generics
+    chk.rule("S6", "a buffer filled from the stream reaches the decoded value without content-changing edits (only tail truncation)")
+    nbuf = 0
+    for fid, fn in sorted(fx.fns.items()):
+        impl = fn.get("impl") or {}
+        if fn.get("derived") or fn["name"] not in ("read_box", "read", "read_desc") and "ReadBox" not in (impl.get("trait") or "") and "ReadDesc" not in (impl.get("trait") or ""):
+            continue
+        body = body_of(fn)
+        if body is None:
+            continue
+
+        def borrowed_local(op):
+            pl = op_place(op)
+            if pl is None:
+                return None
+            l = pl["l"]
+            for _ in range(8):
+                sd = body.single_def(l) if not pl["p"] else None
+                if sd is not None and sd[2] == "assign" and sd[3]["k"] in ("ref", "use", "cast") :
+                    src = sd[3].get("place") if sd[3]["k"] == "ref" else op_place(sd[3]["a"])
+                    if src is None:
+                        return l
+                    if sd[3]["k"] == "ref" and not [x for x in src["p"] if x != "deref"]:
+                        l = src["l"]
+                        if not src["p"]:
+                            return l
+                        pl = {"l": l, "p": []}      # `&mut *r`: keep resolving the reference r
+                        continue
+                    if sd[3]["k"] != "ref" and not src["p"]:
+                        l = src["l"]
+                        pl = src
+                        continue
+                return l
+            return l
+        filled = {}
+        for b, t in body.calls():
+            decl = strip_generics(t["callee"].get("path") or "")
+            if decl in ("std::io::Read::read_exact", "std::io::Read::read_to_end", "std::io::Read::read_to_string") and len(t["args"]) >= 2:
+                l = borrowed_local(t["args"][1])
+                # read_exact(&mut buf) goes through DerefMut/IndexMut of the Vec: follow one call result back to its receiver
+                sd = body.single_def(l) if l is not None else None
+                if sd is not None and sd[2] == "call" and sd[3]["args"]:
+                    l = borrowed_local(sd[3]["args"][0])
+                if l is not None and body.local_name(l):
+                    filled.setdefault(l, t.get("line"))
+        for l, line in sorted(filled.items()):
+            nbuf += 1
+            edits = []
+            for b, t in body.calls():
+                decl = strip_generics(t["callee"].get("path") or "")
+                last = decl.split("::")[-1]
+                if last in EDITS and t["args"] and t["args"][0].get("ty", (op_place(t["args"][0]) or {}).get("ty", "")).startswith("&mut") and borrowed_local(t["args"][0]) == l:
+                    edits.append((last, t.get("line")))
+            key = "%s|%s" % (short_fn(fn), body.local_name(l))
+            if edits:
+                chk.bad("S6", key, "the buffer `%s` filled from the stream is edited by %s before it becomes the decoded value: the value no longer is what the encoder wrote (decode(encode(v)) != v whenever the edit applies)"
+                        % (body.local_name(l), ", ".join("%s() at line %s" % e for e in edits)), site_of(fn, edits[0][1]))
+            else:
+                chk.ok("S6", key, "filled from the stream, only tail truncation / conversion afterwards", site_of(fn, line))
+    chk.floor("S6", "buffers filled from the stream in decoders", nbuf, 10)
+
+
+def short_fn(fn):
+    impl = fn.get("impl") or {}
+    st = short(impl.get("self_ty", "")) if impl else ""
+    return (st + "::" if st else "") + fn["name"]
+
+
 def run(fx, chk, tier):
     INCONCLUSIVE.clear()
     chk.rule("S1", "write_box starts with BoxHeader::new(self.box_type(), self.box_size()).write and returns that size on success")
@@ -480,6 +560,8 @@ def run(fx, chk, tier):
                 src = rinit.get(nm)
                 chk.require(nm in rroles or src == "data", "S4", "%s.%s|read" % (s, nm), "initialised from stream data",
                             "%s.%s is not initialised from stream data by read_box (%s)" % (s, nm, "set to a constant" if src == "const" else "no source found"), rsite)
+    # ---------------- S6: bytes taken from the stream reach the decoded value without content-changing edits
+    s6(fx, chk)
     chk.analysed["box_types"] = len(ms)
     chk.analysed["cells"] = ncells
     chk.analysed["boxes_not_compared"] = sorted(INCONCLUSIVE)
